@@ -18,6 +18,8 @@ import (
 func init() {
 	register("C20", checkC20)
 	addBreakers("C20",
+		Breaker{Name: "in-values-not-collected-for-lateral", File: "internal/storage/ledger/utils.go",
+			Old: "\t\t\tfor _, item := range v {\n\t\t\t\tif address, ok := item.(string); ok {\n\t\t\t\t\taddresses = append(addresses, address)\n\t\t\t\t} else {\n\t\t\t\t\tunknown = true\n\t\t\t\t}\n\t\t\t}\n", New: "", Expect: "DOM/lateral-push"},
 		Breaker{Name: "logs-type-in-unrendered", File: "internal/storage/ledger/resource_logs.go",
 			Old: "\t\tswitch operator {\n\t\tcase queries.OperatorIn:\n\t\t\treturn \"type IN (?)\", []any{bun.In(value)}, nil\n\t\tdefault:\n\t\t\treturn fmt.Sprintf(\"type %s ?\", common.ConvertOperatorToSQL(operator)), []any{value}, nil\n\t\t}", New: "\t\treturn fmt.Sprintf(\"type %s ?\", common.ConvertOperatorToSQL(operator)), []any{value}, nil", Expect: "EXH/filter-operators"},
 		Breaker{Name: "new-field-without-resolver", File: "internal/queries/resources.go",
@@ -57,6 +59,7 @@ func checkC20(c *core.Ctx) {
 	ruleLateralPush(c)
 	ruleTransactionFilterSides(c)
 	rulePartialAddressTerminator(c)
+	ruleLateralCollectsEveryAddressValue(c)
 	// "with or without a point in time": the columns a filter looks at under a PIT (masked
 	// reverted_at, history metadata) are produced by the PIT projection (C05) and by the history
 	// triggers (C17); their structure is a necessary condition of filtering exactly
@@ -750,4 +753,75 @@ func rulePartialAddressTerminator(c *core.Ctx) {
 		}
 	}
 	c.Check(open && len(extra) == 0, "SQLS/partial-address", key+":length-terminator", pos(c, term), "length pinned unless the last segment is `...`", fmt.Sprintf("the entry that pins the number of segments is added under another condition than `last segment != \"...\"` (extra conditions: %v): a partial address matches addresses of another length", extra))
+}
+
+// ruleLateralCollectsEveryAddressValue: canPushAddressFilterToLateral decides on the filter's JSON
+// tree, where an `$in` on the address counts as an address filter like a `$match`. What is then
+// pushed into the (inner) lateral join is built from the values collectAddressFilters gathered.
+// The two must agree: a value shape the collector drops (the array of an `$in`) is a set of
+// addresses the join filters out although the filter selects them (`$or` of a partial `$match`
+// and an `$in`).
+func ruleLateralCollectsEveryAddressValue(c *core.Ctx) {
+	d := fn(c, pkgStore, "", "collectAddressFilters")
+	if d == nil {
+		return
+	}
+	info := d.Pkg.TypesInfo
+	key := declKey(d)
+	var ts *ast.TypeSwitchStmt
+	ast.Inspect(d.Decl.Body, func(n ast.Node) bool {
+		if x, ok := n.(*ast.TypeSwitchStmt); ok && ts == nil {
+			ts = x
+		}
+		return true
+	})
+	if ts == nil {
+		c.Unrecognised("DOM/lateral-push", key+":every-value-shape", pos(c, d.Decl), "collectAddressFilters does not switch on the type of the filter value")
+		return
+	}
+	handles := func(body []ast.Stmt) bool {
+		ok := false
+		for _, st := range body {
+			ast.Inspect(st, func(n ast.Node) bool {
+				switch n.(type) {
+				case *ast.AssignStmt, *ast.IncDecStmt, *ast.ReturnStmt:
+					ok = true
+				}
+				return true
+			})
+		}
+		return ok
+	}
+	// every clause that can receive a non-string value (a slice type, or the default) must do
+	// something with it — collect or disable the push-down; and there must be such a clause
+	seenOther, ignored := false, false
+	for _, cl := range ts.Body.List {
+		cc := cl.(*ast.CaseClause)
+		other := cc.List == nil
+		for _, e := range cc.List {
+			if t := info.TypeOf(e); t != nil {
+				if _, isSlice := t.Underlying().(*types.Slice); isSlice {
+					other = true
+				}
+			}
+		}
+		if !other {
+			continue
+		}
+		seenOther = true
+		if !handles(cc.Body) {
+			ignored = true
+		}
+	}
+	sliceOrDefault := seenOther && !ignored
+	leafIn := false
+	if l := fn(c, pkgStore, "", "isLeafOperator"); l != nil {
+		ast.Inspect(l.Decl.Body, func(n ast.Node) bool {
+			if bl, ok := n.(*ast.BasicLit); ok && bl.Value == `"$in"` {
+				leafIn = true
+			}
+			return true
+		})
+	}
+	c.Check(sliceOrDefault || !leafIn, "DOM/lateral-push", key+":every-value-shape", pos(c, ts), "array values of `$in` are collected (or disable the push-down)", "collectAddressFilters ignores address filter values that are not plain strings (the array of an `$in`), while canPushAddressFilterToLateral counts `$in` as an address filter: for `$or[$match address \"users:\", $in address [bank]]` only `users:` is pushed into the inner lateral join and the accounts the `$in` selects are dropped from volumes and aggregated balances")
 }
